@@ -259,6 +259,41 @@ def rule_manifest_siblings(ctx, rep):
         raise AnalysisError(f"only {n} parser/writer sibling obligations found")
 
 
+def rule_manifest_no_overwrite(ctx, rep):
+    rep.rule(
+        "R-MANIFEST-NO-OVERWRITE",
+        "the writers never assign over an entry of the parsed manifest: in the dependency-management modules a store "
+        "`<table>[<computed key>] = value` (the key being a requirement's name, not a constant) is dominated by a `not in` test of that key. "
+        "tomlkit's `Table.append` refuses an existing key (KeyAlreadyPresent), an item assignment replaces it silently -- an existing "
+        "`name = \"^3.1\"` or `{git = ...}` declaration would be rewritten to the codemodder pin",
+        min_instances=1,
+    )
+    n = 0
+    for fn in ctx.prog.live_functions():
+        if not fn.module.name.startswith("codemodder.dependency_management."):
+            continue
+        fa = None
+        for a in walk_no_nested(fn.node):
+            tgts = a.targets if isinstance(a, ast.Assign) else ([a.target] if isinstance(a, (ast.AugAssign, ast.AnnAssign)) and getattr(a, "value", None) is not None else [])
+            for t in tgts:
+                if not isinstance(t, ast.Subscript) or isinstance(t.slice, (ast.Constant, ast.Slice)):
+                    continue
+                if isinstance(t.value, ast.Name) and t.value.id in ("lines", "new_lines", "updated_lines", "original_lines"):
+                    continue  # a line buffer indexed by position
+                if isinstance(t.slice, ast.UnaryOp) or (isinstance(t.slice, ast.Name) and t.slice.id in ("i", "idx", "index", "lineno")):
+                    continue
+                n += 1
+                fa = fa or ctx.flow(fn)
+                key = unparse(t.slice)
+                guarded = any((not pol and txt.startswith(f"{key} in ")) or (pol and txt.startswith(f"{key} not in ")) for pol, txt in fa.must_at(a))
+                rep.check("R-MANIFEST-NO-OVERWRITE", fn.qname, fn.loc(a), guarded, f"store[{key[:30]}]",
+                          f"`{unparse(a)[:70]}` assigns under a computed key without knowing that the key is absent: a requirement the manifest already declares "
+                          "(in whatever form) is silently replaced")
+    if n == 0:
+        rep.instance("R-MANIFEST-NO-OVERWRITE", "codemodder.dependency_management", "src/codemodder/dependency_management/pyproject_writer.py:1", True,
+                     detail="no computed-key store into a parsed manifest (entries are appended)")
+
+
 def rule_requirement_constants(ctx, rep):
     from .c01 import QUOTES
 
@@ -312,6 +347,7 @@ def check(ctx, rep):
     rule_memo_coherent(ctx, rep)
     rule_requirement_constants(ctx, rep)
     rule_manifest_siblings(ctx, rep)
+    rule_manifest_no_overwrite(ctx, rep)
     rule_shared(ctx, rep)
     from .c12 import MANIFEST_MODULES, rule_every_input_read
 
